@@ -3,16 +3,33 @@ Require Import KV.Update.Spec KV.Update.Model KV.Update.SetProofs KV.Update.Inst
 Require Import Lia Permutation.
 
 (* ---- the known class: the keyword `a` in predicate position of a template ---- *)
-Definition is_kwa (t : tterm) : bool := match t with TKwA => true | _ => false end.
-Definition known_kw_a {wh} (u : update wh) : bool := existsb (fun q => is_kwa (tq_p q)) (u_del u ++ u_ins u).
+(* the keyword `a` in a predicate position: of the template quad itself or of a quoted triple inside it *)
+Fixpoint kwa_in (pred : bool) (t : tterm) : bool :=
+  match t with
+  | TKwA => pred
+  | TQuoted s p o => kwa_in false s || kwa_in true p || kwa_in false o
+  | _ => false
+  end.
+Definition tq_kwa (q : tquad) : bool := kwa_in false (tq_s q) || kwa_in true (tq_p q) || kwa_in false (tq_o q).
+Definition known_kw_a {wh} (u : update wh) : bool := existsb tq_kwa (u_del u ++ u_ins u).
 Definition req_known {wh} (r : request wh) : bool :=
   match r with RText _ u | RTree u => known_kw_a u | _ => false end.
 
-Lemma s_quad_gen_kwa : forall k1 k2 D sol bnf q, is_kwa (tq_p q) = false -> s_quad_gen k1 D sol bnf q = s_quad_gen k2 D sol bnf q.
+Lemma s_term_gen_kwa : forall k1 k2 sol bnf t pred, kwa_in pred t = false ->
+  s_term_gen k1 pred sol bnf t = s_term_gen k2 pred sol bnf t.
 Proof.
-  intros k1 k2 D sol bnf q H. unfold s_quad_gen.
-  assert (E : s_pred k1 sol bnf (tq_p q) = s_pred k2 sol bnf (tq_p q)) by (destruct (tq_p q); simpl in *; congruence).
-  rewrite E. reflexivity.
+  induction t as [v|c|l| |ts IHs tp IHp to IHo]; intros pred H; simpl in *; auto.
+  - rewrite H; reflexivity.
+  - apply orb_false_iff in H. destruct H as [H H3]. apply orb_false_iff in H. destruct H as [H1 H2].
+    rewrite (IHs _ H1), (IHp _ H2), (IHo _ H3). reflexivity.
+Qed.
+
+Lemma s_quad_gen_kwa : forall k1 k2 D sol bnf q, tq_kwa q = false -> s_quad_gen k1 D sol bnf q = s_quad_gen k2 D sol bnf q.
+Proof.
+  intros k1 k2 D sol bnf q H. unfold s_quad_gen. unfold tq_kwa in H.
+  apply orb_false_iff in H. destruct H as [H H3]. apply orb_false_iff in H. destruct H as [H1 H2].
+  rewrite (s_term_gen_kwa k1 k2 sol bnf _ _ H1), (s_term_gen_kwa k1 k2 sol bnf _ _ H2), (s_term_gen_kwa k1 k2 sol bnf _ _ H3).
+  reflexivity.
 Qed.
 
 Lemma filter_map_ext_in : forall {A B} (f g : A -> option B) l, (forall x, In x l -> f x = g x) -> filter_map f l = filter_map g l.
@@ -22,12 +39,12 @@ Proof.
 Qed.
 
 Lemma s_all_gen_kwa : forall k1 k2 D sols bn tqs,
-  existsb (fun q => is_kwa (tq_p q)) tqs = false -> s_all_gen k1 D sols bn tqs = s_all_gen k2 D sols bn tqs.
+  existsb tq_kwa tqs = false -> s_all_gen k1 D sols bn tqs = s_all_gen k2 D sols bn tqs.
 Proof.
   intros k1 k2 D sols; induction sols as [|sol r IH]; intros bn tqs H; simpl; auto.
   rewrite (IH _ _ H). f_equal. apply filter_map_ext_in. intros q Hq. apply s_quad_gen_kwa.
-  destruct (is_kwa (tq_p q)) eqn:E; auto.
-  assert (X : existsb (fun q => is_kwa (tq_p q)) tqs = true) by (apply existsb_exists; exists q; auto). congruence.
+  destruct (tq_kwa q) eqn:E; auto.
+  assert (X : existsb tq_kwa tqs = true) by (apply existsb_exists; exists q; auto). congruence.
 Qed.
 
 Lemma spec_update_gen_kwa : forall {wh} ev (u : update wh) bn D,
@@ -40,19 +57,28 @@ Qed.
 
 (* ---- DELETE templates never allocate ---- *)
 Lemma m_term_false_bl : forall sol t bl st st' bl' r, m_term false sol t bl st = (st', bl', r) -> bl' = bl.
-Proof. intros sol [v|c|l|] bl st st' bl' r H; simpl in H; inversion H; auto. Qed.
+Proof.
+  intros sol; induction t as [v|c|l| |ts IHs tp IHp to IHo]; intros bl st st' bl' r H; simpl in H; try (inversion H; auto; fail).
+  destruct (m_term false sol ts bl st) as [[st1 bl1] r1] eqn:E1. apply IHs in E1; subst bl1.
+  destruct r1 as [e|[s1|]]; try (inversion H; auto; fail).
+  destruct (m_term false sol tp bl st1) as [[st2 bl2] r2] eqn:E2. apply IHp in E2; subst bl2.
+  destruct r2 as [e|[p1|]]; try (inversion H; auto; fail).
+  destruct (m_term false sol to bl st2) as [[st3 bl3] r3] eqn:E3. apply IHo in E3; subst bl3.
+  destruct r3 as [e|[o1|]]; inversion H; auto.
+Qed.
 
 Lemma m_quad_false_bl : forall D sol q bl st st' bl' r, m_quad false D sol q bl st = (st', bl', r) -> bl' = bl.
 Proof.
   intros D sol q bl st st' bl' r H. unfold m_quad in H.
   destruct (m_term false sol (tq_s q) bl st) as [[st1 bl1] r1] eqn:E1. apply m_term_false_bl in E1; subst bl1.
   destruct r1 as [e|[s|]]; try (inversion H; auto; fail).
-  destruct (is_tvar (tq_s q) && negb (legal_subject D s)); try (inversion H; auto; fail).
+  destruct ((is_tvar (tq_s q) || is_qt s) && negb (legal_subject D s)); try (inversion H; auto; fail).
   destruct (m_term false sol (tq_p q) bl st1) as [[st2 bl2] r2] eqn:E2. apply m_term_false_bl in E2; subst bl2.
   destruct r2 as [e|[p|]]; try (inversion H; auto; fail).
   destruct (is_tvar (tq_p q) && negb (legal_predicate D p)); try (inversion H; auto; fail).
   destruct (m_term false sol (tq_o q) bl st2) as [[st3 bl3] r3] eqn:E3. apply m_term_false_bl in E3; subst bl3.
   destruct r3 as [e|[o|]]; try (inversion H; auto; fail).
+  destruct (is_qt o && negb (legal_object D o)); try (inversion H; auto; fail).
   destruct (tq_g q); try (inversion H; auto; fail).
   destruct (lookup v sol); try (inversion H; auto; fail).
   destruct (legal_graph D t); inversion H; auto.
@@ -84,13 +110,26 @@ Qed.
 
 (* ---- no error on well-formed templates ---- *)
 Lemma m_term_noerr : forall insert sol t bl st st' bl' r,
-  (insert = true \/ is_tbnode t = false) -> m_term insert sol t bl st = (st', bl', r) -> exists ot, r = IOut ot.
+  (insert = true \/ has_tbnode t = false) -> m_term insert sol t bl st = (st', bl', r) -> exists ot, r = IOut ot.
 Proof.
-  intros insert sol [v|c|l|] bl st st' bl' r Hc H; simpl in H; try (inversion H; eauto; fail).
-  destruct Hc as [->|Hc]; [|simpl in Hc; discriminate]. simpl in H.
-  destruct (lookup l bl); [inversion H; eauto|].
-  destruct (allocate_blank_node l st) as [[b st1]|] eqn:Ea; [inversion H; eauto|].
-  exfalso; eapply allocate_total; eauto.
+  intros insert sol; induction t as [v|c|l| |ts IHs tp IHp to IHo]; intros bl st st' bl' r Hc H; simpl in H;
+    try (inversion H; eauto; fail).
+  - destruct Hc as [->|Hc]; [|simpl in Hc; discriminate]. simpl in H.
+    destruct (lookup l bl); [inversion H; eauto|].
+    destruct (allocate_blank_node l st) as [[b st1]|] eqn:Ea; [inversion H; eauto|].
+    exfalso; eapply allocate_total; eauto.
+  - assert (Hs : insert = true \/ has_tbnode ts = false).
+    { destruct Hc; auto. right. simpl in H0. destruct (has_tbnode ts); auto. }
+    assert (Hp : insert = true \/ has_tbnode tp = false).
+    { destruct Hc; auto. right. simpl in H0. destruct (has_tbnode tp); auto. rewrite orb_true_r in H0. discriminate. }
+    assert (Ho : insert = true \/ has_tbnode to = false).
+    { destruct Hc; auto. right. simpl in H0. destruct (has_tbnode to); auto. rewrite orb_true_r in H0. discriminate. }
+    destruct (m_term insert sol ts bl st) as [[st1 bl1] r1] eqn:E1.
+    destruct (IHs _ _ _ _ _ Hs E1) as [o1 ->]. destruct o1 as [s1|]; [|inversion H; eauto].
+    destruct (m_term insert sol tp bl1 st1) as [[st2 bl2] r2] eqn:E2.
+    destruct (IHp _ _ _ _ _ Hp E2) as [o2 ->]. destruct o2 as [p1|]; [|inversion H; eauto].
+    destruct (m_term insert sol to bl2 st2) as [[st3 bl3] r3] eqn:E3.
+    destruct (IHo _ _ _ _ _ Ho E3) as [o3 ->]. destruct o3 as [o1|]; inversion H; eauto.
 Qed.
 
 Lemma m_quad_noerr : forall insert D sol q bl st st' bl' r,
@@ -98,16 +137,16 @@ Lemma m_quad_noerr : forall insert D sol q bl st st' bl' r,
   m_quad insert D sol q bl st = (st', bl', r) -> exists oq, r = IOut oq.
 Proof.
   intros insert D sol q bl st st' bl' r Hc Hg H. unfold m_quad in H.
-  assert (Hs : insert = true \/ is_tbnode (tq_s q) = false).
-  { destruct Hc; auto. right. unfold tq_has_bnode in H0. destruct (is_tbnode (tq_s q)); auto. }
-  assert (Hp : insert = true \/ is_tbnode (tq_p q) = false).
-  { destruct Hc; auto. right. unfold tq_has_bnode in H0. destruct (is_tbnode (tq_p q)); auto. rewrite orb_true_r in H0. discriminate. }
-  assert (Ho : insert = true \/ is_tbnode (tq_o q) = false).
-  { destruct Hc; auto. right. unfold tq_has_bnode in H0. destruct (is_tbnode (tq_o q)); auto. rewrite orb_true_r in H0. discriminate. }
+  assert (Hs : insert = true \/ has_tbnode (tq_s q) = false).
+  { destruct Hc; auto. right. unfold tq_has_bnode in H0. destruct (has_tbnode (tq_s q)); auto. }
+  assert (Hp : insert = true \/ has_tbnode (tq_p q) = false).
+  { destruct Hc; auto. right. unfold tq_has_bnode in H0. destruct (has_tbnode (tq_p q)); auto. rewrite orb_true_r in H0. discriminate. }
+  assert (Ho : insert = true \/ has_tbnode (tq_o q) = false).
+  { destruct Hc; auto. right. unfold tq_has_bnode in H0. destruct (has_tbnode (tq_o q)); auto. rewrite orb_true_r in H0. discriminate. }
   destruct (m_term insert sol (tq_s q) bl st) as [[st1 bl1] r1] eqn:E1.
   destruct (m_term_noerr _ _ _ _ _ _ _ _ Hs E1) as [o1 ->].
   destruct o1 as [s|]; [|inversion H; eauto].
-  destruct (is_tvar (tq_s q) && negb (legal_subject D s)); [inversion H; eauto|].
+  destruct ((is_tvar (tq_s q) || is_qt s) && negb (legal_subject D s)); [inversion H; eauto|].
   destruct (m_term insert sol (tq_p q) bl1 st1) as [[st2 bl2] r2] eqn:E2.
   destruct (m_term_noerr _ _ _ _ _ _ _ _ Hp E2) as [o2 ->].
   destruct o2 as [p|]; [|inversion H; eauto].
@@ -115,6 +154,7 @@ Proof.
   destruct (m_term insert sol (tq_o q) bl2 st2) as [[st3 bl3] r3] eqn:E3.
   destruct (m_term_noerr _ _ _ _ _ _ _ _ Ho E3) as [o3 ->].
   destruct o3 as [o|]; [|inversion H; eauto].
+  destruct (is_qt o && negb (legal_object D o)); [inversion H; eauto|].
   unfold tq_graph_ok in Hg. destruct (tq_g q); try discriminate; try (inversion H; eauto; fail).
   destruct (lookup v sol); [|inversion H; eauto]. destruct (legal_graph D t); inversion H; eauto.
 Qed.
@@ -163,36 +203,36 @@ Section Main.
   Lemma compile_where_mono : forall ow st,
     incl (i_dict st) (i_dict (compile_where wh where_terms ow st)) /\
     i_next (compile_where wh where_terms ow st) = i_next st /\
-    (forall w, ow = Some w -> incl (where_terms w) (i_dict (compile_where wh where_terms ow st))).
+    (forall w c, ow = Some w -> In c (where_terms w) -> incl (atoms c) (i_dict (compile_where wh where_terms ow st))).
   Proof.
     intros [w|] st; simpl.
-    2:{ repeat split; auto using incl_refl. intros w H; discriminate. }
+    2:{ repeat split; auto using incl_refl. intros w c H; discriminate. }
     assert (G : forall l st0, incl (i_dict st0) (i_dict (fold_left (fun s t => encode t s) l st0)) /\
                              i_next (fold_left (fun s t => encode t s) l st0) = i_next st0 /\
-                             incl l (i_dict (fold_left (fun s t => encode t s) l st0))).
+                             (forall c, In c l -> incl (atoms c) (i_dict (fold_left (fun s t => encode t s) l st0)))).
     { induction l as [|t l IH]; intros st0; simpl.
-      - repeat split; auto using incl_refl. intros x [].
+      - repeat split; auto using incl_refl. intros c [].
       - destruct (IH (encode t st0)) as [A [B C]]. split; [|split].
-        + intros x Hx. apply A. unfold encode; simpl. apply In_add_end_t; auto.
+        + intros x Hx. apply A. unfold encode; simpl. apply In_union_t; auto.
         + rewrite B. reflexivity.
-        + intros x [<-|Hx]; auto. apply A. unfold encode; simpl. apply In_add_end_t; auto. }
-    destruct (G (where_terms w) st) as [A [B C]]. repeat split; auto. intros w0 H; inversion H; subst; auto.
+        + intros c [<-|Hc]; auto. intros x Hx. apply A. unfold encode; simpl. apply In_union_t; auto. }
+    destruct (G (where_terms w) st) as [A [B C]]. repeat split; auto. intros w0 c H; inversion H; subst; auto.
   Qed.
 
   (* ---- one accepted operation: the model computes the Spec (with `a` read as the word `a`) ---- *)
   (* the solutions of this operation bind only terms of the dataset or constants of its WHERE clause *)
   Definition closed_for (u : update wh) (s : state) : Prop :=
-    forall sol v t, In sol (u_sols eval_where u (den s)) -> lookup v sol = Some t ->
-      term_in_dataset t (den s) \/ exists w, u_where wh u = Some w /\ In t (where_terms w).
+    forall sol v t a, In sol (u_sols eval_where u (den s)) -> lookup v sol = Some t -> In a (atoms t) ->
+      term_in_dataset a (den s) \/ exists w c, u_where wh u = Some w /\ In c (where_terms w) /\ In a (atoms c).
 
   Lemma sols_in_dict : forall u s st,
     wf s -> closed_for u s ->
     incl (i_dict (compile_where wh where_terms (u_where wh u) (IS (dict s) (next s)))) (i_dict st) ->
     forall sol, In sol (u_sols eval_where u (den s)) -> sol_in sol (i_dict st).
   Proof.
-    intros u s st [_ [_ Hcov]] Hcl Hi sol Hs v x Hv.
+    intros u s st [_ [_ Hcov]] Hcl Hi sol Hs v x Hv a Ha.
     destruct (compile_where_mono (u_where wh u) (IS (dict s) (next s))) as [A [_ C]]. simpl in A.
-    destruct (Hcl _ _ _ Hs Hv) as [Ht|[w [Hw Ht]]].
+    destruct (Hcl _ _ _ _ Hs Hv Ha) as [Ht|[w [c [Hw [Hc Hac]]]]].
     - apply Hi, A, Hcov; auto.
     - apply Hi. eapply C; eauto.
   Qed.
@@ -257,29 +297,31 @@ Section Main.
         apply (In_union quad_eqb quad_eqb_spec) in Hq. destruct Hq as [Hq|Hq].
         * left. apply filter_In in Hq. destruct Hq as [Hq _]. eapply HG; eauto.
         * right. unfold graph_names. apply in_flat_map. exists q. split; auto. rewrite Hg; simpl; auto.
-      + intros t Ht. simpl. destruct Ht as [Ht|[q [Hq Ht]]]; simpl in *.
-        * apply (In_union term_eqb term_eqb_spec) in Ht. destruct Ht as [Ht|Ht].
-          -- apply Hold, Hcov. left; exact Ht.
-          -- unfold graph_names in Ht. apply in_flat_map in Ht. destruct Ht as [q [Hq Hg]].
+      + intros t [u0 [Hu Ht]]. simpl. destruct Hu as [Hu|[q [Hq Hu]]]; simpl in *.
+        * apply (In_union term_eqb term_eqb_spec) in Hu. destruct Hu as [Hu|Hu].
+          -- apply Hold, Hcov. exists u0. split; [left; exact Hu | exact Ht].
+          -- unfold graph_names in Hu. apply in_flat_map in Hu. destruct Hu as [q [Hq Hg]].
              destruct (qg q) as [g|] eqn:Eg; simpl in Hg; [|tauto]. destruct Hg as [<-|[]].
-             destruct (HinsIn q Hq) as [_ [_ [_ X]]]. auto.
+             destruct (HinsIn q Hq) as [_ [_ [_ X]]]. eapply X; eauto.
         * apply (In_union quad_eqb quad_eqb_spec) in Hq. destruct Hq as [Hq|Hq].
-          -- apply filter_In in Hq. destruct Hq as [Hq _]. apply Hold, Hcov. right. exists q; auto.
-          -- destruct (HinsIn q Hq) as [X1 [X2 [X3 X4]]]. destruct Ht as [<-|[<-|[<-|Ht]]]; auto.
+          -- apply filter_In in Hq. destruct Hq as [Hq _]. apply Hold, Hcov. exists u0. split; [right; exists q; auto | exact Ht].
+          -- destruct (HinsIn q Hq) as [X1 [X2 [X3 X4]]]. destruct Hu as [<-|[<-|[<-|Hu]]]; auto. eapply X4; eauto.
   Qed.
 
   Transparent apply_mutations.
 
   (* from here on: the evaluator binds variables only to terms of the dataset or constants of the WHERE clause *)
-  Hypothesis eval_closed : forall w D sol v t,
-    In sol (eval_where w D) -> lookup v sol = Some t -> term_in_dataset t D \/ In t (where_terms w).
+  Hypothesis eval_closed : forall w D sol v t a,
+    In sol (eval_where w D) -> lookup v sol = Some t -> In a (atoms t) ->
+    term_in_dataset a D \/ exists c, In c (where_terms w) /\ In a (atoms c).
 
   Lemma closed_for_all : forall u s, closed_for u s.
   Proof.
-    intros u s sol v t Hs Hv.
+    intros u s sol v t a Hs Hv Ha.
     destruct u; simpl in Hs;
       try (destruct Hs as [<-|[]]; discriminate);
-      (destruct (eval_closed _ _ _ _ _ Hs Hv) as [Ht|Ht]; [left; auto | right; eexists; split; [reflexivity|exact Ht]]).
+      (destruct (eval_closed _ _ _ _ _ _ Hs Hv Ha) as [Ht|[c [Hc Hac]]];
+       [left; auto | right; eexists; exists c; split; [reflexivity|split; [exact Hc|exact Hac]]]).
   Qed.
 
   (* ---- a rejected operation: dataset, catalog and prefixes untouched; dictionary and counter only grow ---- *)
@@ -536,7 +578,8 @@ Qed.
 
 Lemma history_spec :
   forall (wh : Type) (eval_where : wh -> dataset -> list solution) (where_terms : wh -> list term),
-    (forall w D sol v t, In sol (eval_where w D) -> lookup v sol = Some t -> term_in_dataset t D \/ In t (where_terms w)) ->
+    (forall w D sol v t a, In sol (eval_where w D) -> lookup v sol = Some t -> In a (atoms t) ->
+       term_in_dataset a D \/ exists c, In c (where_terms w) /\ In a (atoms c)) ->
     forall (reqs : list (request wh)) (s : state),
       wf s -> forallb (fun r => negb (req_known r)) reqs = true ->
       let res := run wh eval_where where_terms reqs s in
